@@ -5,16 +5,20 @@ import os
 import random as pyrandom
 
 import core
+from corr.bloom import strategy
 from search.common import drive, net_zero, sparse_result
 
 
 def gen(rng):
     kind = rng.choice(["bloom", "ondisk", "cbf", "expanding", "rotating", "cms", "cmean", "hh", "st", "cuckoo", "ccf", "qf"])
     keys = ["k%d" % rng.randrange(2000) for _ in range(rng.randint(1, 12))]
+    if rng.random() < 0.25:
+        keys = ["cl\u00e9%d" % rng.randrange(2000) for _ in keys]
     return {"kind": kind, "est": rng.choice([1, 2, 3, 5, 12]), "fpr": rng.choice([0.3, 0.1, 0.05]), "keys": keys, "adds": [rng.choice(keys) for _ in range(rng.randint(0, 30))], "probes": keys + ["absent%d" % i for i in range(3)], "seed": rng.randrange(2**32),
             # a reachable state in which elements_added is 0 although cells are set (sparse intersection result,
             # sketch whose additions and removals cancel): counters are not a summary of the cells
-            "twist": rng.random() < 0.35}
+            "twist": rng.random() < 0.35,
+            "strat": rng.choice(["fnv", "fnv", "fnv", "md5", "custom"])}
 
 
 def snapshot(kind, obj):
@@ -39,6 +43,8 @@ def check(case):
     import probables as P
 
     kind, est, fpr = case["kind"], case["est"], case["fpr"]
+    fn = strategy(case.get("strat", "fnv"))[0]
+    hf = {"hash_function": fn} if fn is not None and kind in ("bloom", "ondisk", "cbf", "expanding", "rotating", "cms", "cmean", "hh", "st") else {}
     state = pyrandom.getstate()
     cwd = os.getcwd()
     with core.Scratch() as tmp:
@@ -47,23 +53,23 @@ def check(case):
 
             def make():
                 if kind == "bloom":
-                    return P.BloomFilter(est_elements=est, false_positive_rate=fpr)
+                    return P.BloomFilter(est_elements=est, false_positive_rate=fpr, **hf)
                 if kind == "ondisk":
-                    return P.BloomFilterOnDisk(os.path.join(tmp, "x%d.blm" % pyrandom.randrange(10**9)), est_elements=est, false_positive_rate=fpr)
+                    return P.BloomFilterOnDisk(os.path.join(tmp, "x%d.blm" % pyrandom.randrange(10**9)), est_elements=est, false_positive_rate=fpr, **hf)
                 if kind == "cbf":
-                    return P.CountingBloomFilter(est_elements=est, false_positive_rate=fpr)
+                    return P.CountingBloomFilter(est_elements=est, false_positive_rate=fpr, **hf)
                 if kind == "expanding":
-                    return P.ExpandingBloomFilter(est_elements=est, false_positive_rate=fpr)
+                    return P.ExpandingBloomFilter(est_elements=est, false_positive_rate=fpr, **hf)
                 if kind == "rotating":
-                    return P.RotatingBloomFilter(est_elements=est, false_positive_rate=fpr, max_queue_size=3)
+                    return P.RotatingBloomFilter(est_elements=est, false_positive_rate=fpr, max_queue_size=3, **hf)
                 if kind == "cms":
-                    return P.CountMinSketch(width=5, depth=3)
+                    return P.CountMinSketch(width=5, depth=3, **hf)
                 if kind == "cmean":
-                    return P.CountMeanMinSketch(width=5, depth=4)
+                    return P.CountMeanMinSketch(width=5, depth=4, **hf)
                 if kind == "hh":
-                    return P.HeavyHitters(num_hitters=3, width=5, depth=3)
+                    return P.HeavyHitters(num_hitters=3, width=5, depth=3, **hf)
                 if kind == "st":
-                    return P.StreamThreshold(threshold=2, width=5, depth=3)
+                    return P.StreamThreshold(threshold=2, width=5, depth=3, **hf)
                 if kind == "cuckoo":
                     return P.CuckooFilter(capacity=10, bucket_size=2, max_swaps=10)
                 if kind == "ccf":
@@ -86,13 +92,13 @@ def check(case):
             # half of the cases observe a structure that was exported and loaded back (reachable state too)
             if case["seed"] % 2 == 0 and kind not in ("qf", "ondisk") and not (case.get("twist") and kind == "st"):
                 cls = type(obj)
-                kw = {}
+                kw = dict(hf)
                 if kind == "rotating":
-                    kw = {"max_queue_size": 3}
+                    kw["max_queue_size"] = 3
                 if kind == "hh":
-                    kw = {"num_hitters": 3}
+                    kw["num_hitters"] = 3
                 if kind == "st":
-                    kw = {"threshold": 2}
+                    kw["threshold"] = 2
                 if kind not in ("hh", "st"):
                     obj = cls.frombytes(bytes(obj), **kw)
             before = snapshot(kind, obj)
@@ -115,7 +121,7 @@ def check(case):
                 if kind != "ondisk":
                     reads.append(("export_hex", obj.export_hex))
                     reads.append(("export_c_header", lambda: obj.export_c_header(os.path.join(tmp, "h.h"))))
-                other = make() if kind != "ondisk" else P.BloomFilter(est_elements=est, false_positive_rate=fpr)
+                other = make() if kind != "ondisk" else P.BloomFilter(est_elements=est, false_positive_rate=fpr, **hf)
                 other.add("other")
                 ob = snapshot("bloom" if kind == "ondisk" else kind, other)
                 for nm in ("union", "intersection", "jaccard_index"):
